@@ -11,6 +11,8 @@ import Driver.Valset
 import Driver.Authz
 import Driver.RepStake
 import Driver.Slash
+import Driver.Settle
+import Driver.Ledger
 import Driver.Oracle
 import Driver.Claim
 open Driver
@@ -36,6 +38,9 @@ def dispatch (fam : String) : Option (List String → String → Option Res) :=
   | "authz" => some runAuthz
   | "repstake" => some runRepStake
   | "slash" => some runSlash
+  | "settle" => some runSettle
+  | "ledgerslash" => some runLedger
+  | "ledgersettle" => some runLedger
   | "claim" => some runClaim
   | "oracle" => some runOracle
   | "oracle7" => some runOracle7
